@@ -6,19 +6,19 @@ use bevy_cobweb::prelude::*;
 use std::cell::RefCell;
 
 #[derive(Copy, Clone, Debug, PartialEq)]
-pub enum K { F, N, S, O }
+pub enum K { F, N, S, O, M }
 
 #[derive(Copy, Clone, Debug)]
 pub struct Call { kind: K, key: usize, input: u32 }
 
 #[derive(Copy, Clone, Debug)]
-pub enum Op { D(Call), Q(Call), W(u32), X(usize) }
+pub enum Op { D(Call), Q(Call), W(u32), X(usize), G(usize), V(usize) }
 
 #[derive(Clone, Debug)]
 pub struct Def { kind: K, key: usize, excl: bool, runs: Vec<Vec<Op>> }
 
 #[derive(Clone, Debug)]
-pub enum Top { Spawn(usize), Call(Call), Despawn(usize) }
+pub enum Top { Spawn(usize), Call(Call), Despawn(usize), Reg(usize), Revoke(usize) }
 
 #[derive(Default)]
 struct Sh { out: Vec<String>, defs: Vec<Def>, spawned: Vec<(SysId, usize)>, ncalls: usize }
@@ -39,12 +39,13 @@ thread_local! { static SH: RefCell<Sh> = RefCell::new(Sh::default()); }
 fn log(l: String) { SH.with(|s| s.borrow_mut().out.push(l)); }
 
 fn num<T: std::str::FromStr>(t: &str) -> Option<T> { if t.is_empty() || !t.chars().all(|c| c.is_ascii_digit()) { None } else { t.parse().ok() } }
-fn kind(t: &str) -> Option<K> { match t { "f" => Some(K::F), "n" => Some(K::N), "s" => Some(K::S), "o" => Some(K::O), _ => None } }
-fn kname(k: K) -> &'static str { match k { K::F => "f", K::N => "n", K::S => "s", K::O => "o" } }
+fn kind(t: &str) -> Option<K> { match t { "f" => Some(K::F), "n" => Some(K::N), "s" => Some(K::S), "o" => Some(K::O), "m" => Some(K::M), _ => None } }
+fn kname(k: K) -> &'static str { match k { K::F => "f", K::N => "n", K::S => "s", K::O => "o", K::M => "m" } }
 fn parse_call(t: &[&str]) -> Option<Call> { match t { [k, key, x] => Some(Call{ kind: kind(k)?, key: num(key)?, input: num(x)? }), _ => None } }
 fn parse_op(t: &[&str]) -> Option<Op>
 {
-    match t { ["q", r @ ..] => Some(Op::Q(parse_call(r)?)), ["d", r @ ..] => Some(Op::D(parse_call(r)?)), ["w", v] => Some(Op::W(num(v)?)), ["x", v] => Some(Op::X(num(v)?)), _ => None }
+    match t { ["q", r @ ..] => Some(Op::Q(parse_call(r)?)), ["d", r @ ..] => Some(Op::D(parse_call(r)?)), ["w", v] => Some(Op::W(num(v)?)), ["x", v] => Some(Op::X(num(v)?)),
+        ["g", v] => Some(Op::G(num(v)?)), ["v", v] => Some(Op::V(num(v)?)), _ => None }
 }
 
 pub fn parse(text: &str) -> Option<(Vec<Def>, Vec<Top>)>
@@ -77,6 +78,8 @@ pub fn parse(text: &str) -> Option<(Vec<Def>, Vec<Top>)>
             ["top", "spawn", d] => tops.push(Top::Spawn(num(d)?)),
             ["top", "despawn", d] => tops.push(Top::Despawn(num(d)?)),
             ["top", "call", r @ ..] => tops.push(Top::Call(parse_call(r)?)),
+            ["top", "reg", k] => tops.push(Top::Reg(num(k)?)),
+            ["top", "revoke", k] => tops.push(Top::Revoke(num(k)?)),
             _ => return None,
         }
     }
@@ -108,6 +111,7 @@ fn do_call(world: &mut World, c: Call) -> Option<u32>
     let excl = match c.kind
     {
         K::F | K::N => script(c.kind, c.key, 0).0,
+        K::M => script(K::N, c.key, 0).0,
         K::O => script(K::F, c.key, 0).0,
         K::S => false,
     };
@@ -129,12 +133,41 @@ fn do_call(world: &mut World, c: Call) -> Option<u32>
             macro_rules! m { ($n:literal) => { if excl { Some(named_syscall(world, c.key as u32, c.input, sys_x::<1, $n>)) } else { Some(named_syscall(world, c.key as u32, c.input, sys_o::<1, $n>)) } }; }
             dispatch4!(c.key, m)
         }
+        K::M =>
+        {
+            // `named_syscall_direct`: by name only (the name `named_syscall` derives for this key's function item)
+            macro_rules! m { ($n:literal) => { if excl { named_syscall_direct::<In<u32>, u32>(world, sys_name(&sys_x::<1, $n>, c.key as u32), c.input).ok() }
+                else { named_syscall_direct::<In<u32>, u32>(world, sys_name(&sys_o::<1, $n>, c.key as u32), c.input).ok() } }; }
+            dispatch4!(c.key, m)
+        }
         K::S =>
         {
             let Some((id, _)) = SH.with(|s| s.borrow().spawned.get(c.key).copied()) else { return None };
             spawned_syscall::<In<u32>, u32>(world, id, c.input).ok()
         }
     }
+}
+
+fn sys_name<S: 'static>(_: &S, id: u32) -> SysName { SysName::new::<S>(id) }
+
+/// `register_named_system` with a fresh system of the key's function item.
+fn register_named(world: &mut World, key: usize)
+{
+    let excl = script(K::N, key, 0).0;
+    macro_rules! m { ($n:literal) => { if excl { register_named_system(world, sys_name(&sys_x::<1, $n>, key as u32), sys_x::<1, $n>) }
+        else { register_named_system(world, sys_name(&sys_o::<1, $n>, key as u32), sys_o::<1, $n>) } }; }
+    dispatch4!(key, m);
+    log(format!("sc registered n{}", key));
+}
+
+/// `IdMappedSystems::revoke_sysname` (nothing to do while the resource does not exist).
+fn revoke_named(world: &mut World, key: usize)
+{
+    let excl = script(K::N, key, 0).0;
+    macro_rules! m { ($n:literal) => { if excl { sys_name(&sys_x::<1, $n>, key as u32) } else { sys_name(&sys_o::<1, $n>, key as u32) } }; }
+    let name = dispatch4!(key, m);
+    if let Some(mut r) = world.get_resource_mut::<IdMappedSystems<In<u32>, u32>>() { r.revoke_sysname(name); }
+    log(format!("sc revoked n{}", key));
 }
 
 /// Body shared by the ordinary systems: `KIND` 0 = syscall, 1 = named, 2 = spawned.
@@ -151,6 +184,8 @@ fn body_ordinary(kind: K, key: usize, def_key: usize, x: u32, local: &mut u32, c
             Op::Q(call) => c.queue(move |w: &mut World| try_call(w, call)),
             Op::W(v) => c.queue(move |_: &mut World| log(format!("sc write {v}"))),
             Op::X(id) => c.queue(move |w: &mut World| despawn_spawned(w, id)),
+            Op::G(k) => c.queue(move |w: &mut World| register_named(w, k)),
+            Op::V(k) => c.queue(move |w: &mut World| revoke_named(w, k)),
         }
     }
     *local += 1;
@@ -177,6 +212,8 @@ fn body_exclusive(kind: K, key: usize, def_key: usize, x: u32, local: &mut u32, 
             Op::Q(call) => world.commands().queue(move |w: &mut World| try_call(w, call)),
             Op::W(v) => world.commands().queue(move |_: &mut World| log(format!("sc write {v}"))),
             Op::X(id) => world.commands().queue(move |w: &mut World| despawn_spawned(w, id)),
+            Op::G(k) => world.commands().queue(move |w: &mut World| register_named(w, k)),
+            Op::V(k) => world.commands().queue(move |w: &mut World| revoke_named(w, k)),
         }
     }
     *local += 1;
@@ -228,6 +265,8 @@ pub fn run(path: &str, text: &str)
                     log(format!("sc spawned s{} def{}", id, d));
                 }
                 Top::Call(c) => try_call(&mut world, *c),
+                Top::Reg(k) => register_named(&mut world, *k),
+                Top::Revoke(k) => revoke_named(&mut world, *k),
                 Top::Despawn(id) =>
                 {
                     if let Some((sid, _)) = SH.with(|s| s.borrow().spawned.get(*id).copied()) { world.despawn(sid.entity()); }
